@@ -312,7 +312,7 @@ def gen_history(seed, nops, alpha="short", mode="plain", kinds=None, reopen=Fals
     generation time (a shadow model tracks prefixes/ids optimistically: ids are
     assigned 1,2,3... as the implementation is required to)"""
     r = random.Random(seed)
-    A = {"short": SHORT, "long": LONG, "tiny": (b"a", b"b")}[alpha] if isinstance(alpha, str) else alpha
+    A = {"short": SHORT, "long": LONG, "tiny": (b"a", b"b"), "sameblock": (b"S" * 80 + b"c", b"S" * 80 + b"f", b"S" * 80 + b"m", b"S" * 74 + b"z", b"S" * 74, b"a")}[alpha] if isinstance(alpha, str) else alpha
     web = mode == "rules"
 
     def rl(depth=(1, 4)):
